@@ -421,6 +421,9 @@ func c05Program(p *prog, steps int) {
 			if n >= 3 && r.Chance(1, 3) {
 				perm := r.Perm(n)
 				k := r.Range(2, 3)
+				if n > 12 && r.Bool() {
+					k = r.Range(2, n-1) // remove a large part at once
+				}
 				idxs := append([]int{}, perm[:k]...)
 				p.step("Delete", fmt.Sprintf("%s.Delete(%v) [n=%d]", l.Name(), idxs, n), false, func() {
 					del := map[int]bool{}
@@ -672,6 +675,12 @@ func c05Observe(p *prog, l *model.Node) {
 					return
 				}
 			}
+			// the returned slice is the caller's: writing into it must not change the list or later Slice() calls
+			for i := range s {
+				s[i] = "scribbled"
+			}
+			_ = append(s[:0], "appended")
+			p.checkHeap()
 		}
 	case 5, 6: // Contains / IndexOf
 		var v model.Val
